@@ -350,7 +350,7 @@ class CallMixin:
             at = f.attr
             if at in ("get", "items", "keys", "values", "startswith", "endswith", "append", "extend", "add", "pop",
                       "encode", "decode", "join", "format", "copy", "update", "setdefault", "discard", "remove", "clear",
-                      "strip", "rstrip", "lstrip", "lower", "upper", "title", "replace", "split", "rsplit", "splitlines") or "method" in self.m.hooks:
+                      "strip", "rstrip", "lstrip", "lower", "upper", "title", "replace", "split", "rsplit", "splitlines", "removesuffix", "removeprefix") or "method" in self.m.hooks:
                 return self.method_call(n, st, old)
         return None
 
@@ -521,21 +521,35 @@ class CallMixin:
                     return T(BOOL, f"({op_} {x.s} {recv.s})")
                 if isinstance(x, TupV) and x.items and all(isinstance(i, T) and i.sort == STR for i in x.items):
                     return T(BOOL, "(or " + " ".join(f"({op_} {i.s} {recv.s})" for i in x.items) + ")") if len(x.items) > 1 else T(BOOL, f"({op_} {x.items[0].s} {recv.s})")
+            if at in ("removesuffix", "removeprefix") and len(n.args) == 1:
+                x = self.ev(n.args[0], st, old)
+                if isinstance(x, T) and x.sort == STR:
+                    if at == "removesuffix":
+                        return T(STR, f"(ite (str.suffixof {x.s} {recv.s}) (str.substr {recv.s} 0 (- (str.len {recv.s}) (str.len {x.s}))) {recv.s})")
+                    return T(STR, f"(ite (str.prefixof {x.s} {recv.s}) (str.substr {recv.s} (str.len {x.s}) (- (str.len {recv.s}) (str.len {x.s}))) {recv.s})")
             if at in ("strip", "rstrip", "lstrip", "lower", "upper", "title", "replace", "split", "rsplit", "splitlines") and all(not isinstance(a, ast.Starred) for a in n.args) and not n.keywords:
                 args = [self.ev(a, st, old) for a in n.args]
                 if all(isinstance(a, T) and a.sort in (STR, INT) for a in args):
                     ret = ("Seq", STR) if at in ("split", "rsplit", "splitlines") else STR
                     return c.app(f"str_{at}{len(args)}", [STR] + [a.sort for a in args], ret, [recv] + args)
-            if at == "format" and isinstance(f.value, ast.Constant) and isinstance(f.value.value, str) and not n.args:
+            if at == "format" and isinstance(f.value, ast.Constant) and isinstance(f.value.value, str) and not any(isinstance(a, ast.Starred) for a in n.args):
                 import string as _string
                 kw = {k.arg: self.ev(k.value, st, old) for k in n.keywords if k.arg}
+                pos = [self.ev(a, st, old) for a in n.args]
+                auto = 0
                 parts = []
                 ok = True
                 for lit, field, spec, conv in _string.Formatter().parse(f.value.value):
                     if lit:
                         parts.append(T(STR, smt_str(lit)))
                     if field is not None:
-                        v = kw.get(field)
+                        if field == "" and auto < len(pos):
+                            v = pos[auto]      # auto-numbered positional field {}
+                            auto += 1
+                        elif field.isdigit() and int(field) < len(pos):
+                            v = pos[int(field)]
+                        else:
+                            v = kw.get(field)
                         if spec or conv or not isinstance(v, T) or v.sort != STR:
                             ok = False
                             break
